@@ -45,6 +45,16 @@ BUILT = {
             'Exploration: Ritz bounds, norm preservation, exactness of both exponential branches and of the lowest Ritz value once the Krylov '
             'space is exhausted, Rayleigh-quotient consistency below that point; one clause is excluded on the listed known finding F5.',
             'n <= 14 (24 thorough); scipy.linalg.expm and numpy eigvalsh trusted; |dt| ||A|| <= 4', '4 (C15)'),
+    'C16': ('Hypothesis-generated rewrite histories (step lists interpreted against the graph, shrinkable, JSON-replayable); free-algebra oracle after every step',
+            'Exploration: generated consistent layered graphs (parallel / multi-operator / cancelling edges, twin nodes, charges, colliding id schemes) undergo up to 15 (25) '
+            'steps of simplify, merge_edges on harness-determined mergeable pairs, renames (fresh ids; clashes must raise and change nothing), add(other) and flip; after each step the polynomial, '
+            'is_consistent(), length, size monotonicity of simplify and immutability of the other graph are judged; also on graphs compiled by from_opchains.',
+            'histories are sampled (length <= 25); exact Fractions for dyadic coefficients', '4 (C16)'),
+    'C17': ('Hypothesis program generation for operator trees and automata (accepting path drawn first); free-algebra oracle + Kronecker-product dense oracle',
+            'Exploration: generated tree lists and automata (self loops, parallel edges, dead states, site-dependent active/opics callables, identical terminals) are unfolded; the '
+            'graph polynomial must equal the sum of padded trees / of automaton paths (independent DFS); consistency, length, pruning of dead states; dense forms of chains, trees, '
+            'graphs (both directions) and of the converted MPO must equal the polynomial evaluated by Kronecker products.',
+            'sampled programs, L <= 6; dense part d^L <= 729', '4 (C17)'),
     'C18': ('exhaustive enumeration of all bipartite graphs up to 4x4 (5x5 thorough) + Hypothesis graph families; DP / Kuhn / weak-duality oracle',
             'Exploration, exhaustive for its finite scope: every edge set of every partition up to 4x4 (two edge orders; 5x5 in the thorough tier) is judged '
             'against a bitmask-DP optimum; random and adversarial families up to 60x60 are judged by validity predicates, an independent Kuhn matching and Koenig duality.',
